@@ -15,6 +15,7 @@
  'spawn': {'file': 'brush-core/src/interp.rs', 'start': r'^async fn spawn_pipeline_processes\(', 'mode': 'fn_body', 'deasync': True,
         'rewrites': [[r'std::io::pipe\(\)', r'__o.pipe()', 1],
                      [r'command\s*\.execute_in_pipeline\(pipeline_context, cmd_params\)', r't_cmd_in_pipeline(command, pipeline_context, cmd_params, __o)', 1]]},
+ 'runs_in_current': {'file': 'brush-core/src/interp.rs', 'start': r'^fn runs_in_current_shell\(', 'mode': 'fn_body', 'if_absent': 'let _ = (pipeline_len, index, shell); false'},
  'cmd_in_pipeline': {'file': 'brush-core/src/interp.rs', 'start': r'ExecuteInPipeline<SE> for ast::Command \{\s*async fn execute_in_pipeline\(', 'mode': 'fn_body', 'self_to': 'this', 'deasync': True,
         'rewrites': [[r'Self::', r'ast::Command::', 3],
                      [r'simple\.execute_in_pipeline\(pipeline_context, params\)', r'__o.start_simple(pipeline_context, params)', 1],
@@ -99,6 +100,10 @@ impl WOracle {
 fn t_cmd_in_pipeline(this: &ast::Command, mut pipeline_context: PipelineExecutionContext<'_>, mut params: ExecutionParameters, __o: &mut WOracle) -> Result<ExecutionSpawnResult, error::Error> {
 /*@LIFT cmd_in_pipeline*/
 }
+/// the rule deciding which stage runs in the current shell (a helper of the spawn and wait loops since the repair of D30)
+fn runs_in_current_shell(pipeline_len: usize, index: usize, shell: &Shell) -> bool {
+/*@LIFT runs_in_current*/
+}
 fn t_spawn(pipeline: &ast::Pipeline, shell: &mut Shell, params: &ExecutionParameters, __o: &mut WOracle) -> Result<VecDeque<ExecutionSpawnResult>, error::Error> {
 /*@LIFT spawn*/
 }
@@ -146,22 +151,22 @@ fn wiring(n: usize, allow_inline_writer: bool) {
     std::mem::forget(r); std::mem::forget(p);
 }
 
-//@proof {'props': ['C11'], 'tier': 'quick', 'timeout': 900, 'uses': ['spawn', 'cmd_in_pipeline'], 'known': 'D15', 'bounds': '3 stages, each simple or compound (symbolic), lastpipe / job-control options symbolic', 'desc': 'FULL wiring + start-before-wait contract, expected to fail on the recorded finding D15 (a compound stage in a non-final position is run to completion inside the spawn loop, before its reader exists)'}
+//@proof {'props': ['C11'], 'tier': 'quick', 'timeout': 900, 'uses': ['spawn', 'cmd_in_pipeline', 'runs_in_current'], 'known': 'D15', 'bounds': '3 stages, each simple or compound (symbolic), lastpipe / job-control options symbolic', 'desc': 'FULL wiring + start-before-wait contract, expected to fail on the recorded finding D15 (a compound stage in a non-final position is run to completion inside the spawn loop, before its reader exists)'}
 #[kani::proof]
 #[kani::unwind(6)]
 fn vk_c11_wiring_3_full() { wiring(3, true); }
 
-//@proof {'props': ['C11'], 'tier': 'quick', 'timeout': 900, 'uses': ['spawn', 'cmd_in_pipeline'], 'bounds': '3 stages; non-final stages simple (D15 region assumed away), last stage simple or compound; options symbolic', 'desc': 'pipeline wiring: N-1 pipes, stage k stdout -> stage k+1 stdin, one writer and one reader per pipe, first/last keep the caller\'s descriptors, only the last stage may run in the parent shell and only under lastpipe without job control'}
+//@proof {'props': ['C11'], 'tier': 'quick', 'timeout': 900, 'uses': ['spawn', 'cmd_in_pipeline', 'runs_in_current'], 'bounds': '3 stages; non-final stages simple (D15 region assumed away), last stage simple or compound; options symbolic', 'desc': 'pipeline wiring: N-1 pipes, stage k stdout -> stage k+1 stdin, one writer and one reader per pipe, first/last keep the caller\'s descriptors, only the last stage may run in the parent shell and only under lastpipe without job control'}
 #[kani::proof]
 #[kani::unwind(6)]
 fn vk_c11_wiring_3_modulo_known() { wiring(3, false); }
 
-//@proof {'props': ['C11'], 'tier': 'quick', 'timeout': 900, 'uses': ['spawn', 'cmd_in_pipeline'], 'bounds': '2 stages (D15 region assumed away)', 'desc': 'pipeline wiring, 2 stages'}
+//@proof {'props': ['C11'], 'tier': 'quick', 'timeout': 900, 'uses': ['spawn', 'cmd_in_pipeline', 'runs_in_current'], 'bounds': '2 stages (D15 region assumed away)', 'desc': 'pipeline wiring, 2 stages'}
 #[kani::proof]
 #[kani::unwind(6)]
 fn vk_c11_wiring_2_modulo_known() { wiring(2, false); }
 
-//@proof {'props': ['C11'], 'tier': 'thorough', 'timeout': 1500, 'uses': ['spawn', 'cmd_in_pipeline'], 'bounds': '4 stages (D15 region assumed away)', 'desc': 'pipeline wiring, 4 stages'}
+//@proof {'props': ['C11'], 'tier': 'thorough', 'timeout': 1500, 'uses': ['spawn', 'cmd_in_pipeline', 'runs_in_current'], 'bounds': '4 stages (D15 region assumed away)', 'desc': 'pipeline wiring, 4 stages'}
 #[kani::proof]
 #[kani::unwind(7)]
 fn vk_c11_wiring_4_modulo_known() { wiring(4, false); }
